@@ -138,7 +138,15 @@ def build_case(cid, rng, feature):
     byval = rng.random() < 0.25
     forms = ["inline", "where", "split", "split2", "impl"]
     L = []
-    if mode == "fn":
+    if mode == "fn" and rng.random() < 0.1:
+        # no dependency at all (`no_deps`): zero declared bounds, the fixed requirement stays what it is
+        o2 = opts + [rng.choice(["no_deps", "no_deps = true"])]
+        rng.shuffle(o2)
+        L.append("#[::entrait::entrait(%s)] /*@inv*/" % ", ".join(["pub Subj"] + o2))
+        L.append("%sfn subj(a: i32) -> i32 { a }" % ("async " if rng.random() < 0.33 else ""))
+        declared, anyval, byval = [], False, False
+        desc = [("no_deps", [], False)]
+    elif mode == "fn":
         bs = rng.sample(ALLB, rng.randint(0, 5))
         form = rng.choice(forms)
         L.append("#[::entrait::entrait(%s)] /*@inv*/" % ", ".join(["pub Subj"] + opts))
